@@ -13,7 +13,7 @@ CHECKS = {
  "C05": dict(
     category="model_checking", design_ref="DESIGN.md §5 C05",
     technique="explicit-state search of the jump chain through the real firstReaction (every reachable state x every ordering of the enabled clocks), generator matrix assembled from requested scales and observed successors, compared with closed-form laws; conformance replay of free-running seeded runs",
-    text="Kernel extraction instead of statistics: at every reachable state of linear chains and SIR (N<=4 quick, <=6 thorough, 2x2/3x3 rate grid, with and without explicit limits) the code must request one exponential per enabled event with scale 1/rate and fire the argmin; the implementation-induced generator then reproduces the multinomial occupancy law (expm) and the SIR final-size law to 1e-9. Real-seed runs are replayed through the reference from their recorded draws.",
+    text="Kernel extraction instead of statistics: at every reachable state of linear chains and SIR (N<=4 quick, <=6 thorough, 2x2/3x3 rate grid, with and without explicit limits) the code must request one exponential per enabled event with scale 1/rate and fire the argmin; the implementation-induced generator then reproduces the multinomial occupancy law (expm) and the SIR final-size law to 1e-9. Real-seed ensembles (3 runs per call, raw and on a time grid reaching far beyond absorption) are replayed through the reference from their recorded draws, each run from its own disjoint stretch of the stream; ensembles produced with parallel=True (real dask run) must consist of pairwise different realisations.",
     note="Assumes numpy.random.exponential is an iid Exp(scale) source; the statistical acceptance test of the property text is replaced by an exact comparison of laws."),
  "C10": dict(
     category="model_checking", design_ref="DESIGN.md §5 C10",
@@ -38,7 +38,7 @@ CHECKS = {
  "C01": dict(
     category="exploration", design_ref="DESIGN.md §5 C01, §4.2",
     technique="exhaustive enumeration of model definitions within a bounded number of named-choice edits of seed models (iterative deviation bounding over a generator grammar) plus a complete small-scope block; each definition compared with sympy reference semantics",
-    text="For every enumerated definition (events of 1-3 T/B/D transitions, numeric and symbolic magnitudes, 8 rate templates incl. time-periodic, ODE terms, derived parameters, 7 declaration styles) the symbolic ode / state-change matrix / rate vector / explicit terms equal the reference, ode == V*a + explicit terms, the reactant matrix is the support pattern, and the numeric evaluators equal mpmath evaluation of the reference at 4 points on one model instance; Cython back-end on the seeds.",
+    text="For every enumerated definition (events of 1-3 T/B/D transitions, numeric and symbolic magnitudes, 8 rate templates incl. time-periodic, ODE terms, derived parameters, 7 declaration styles) the symbolic ode / state-change matrix / rate vector / explicit terms equal the reference, ode == V*a + explicit terms, the reactant matrix is the support pattern, and the numeric evaluators equal mpmath evaluation of the reference at 5 points on one model instance (parameters re-assigned between points, one point repeated with other parameters); Cython back-end on the seeds. Each definition with two or more processes is also reached from a non-initial state (built without its last process, everything evaluated, last process added; questions asked in rotated order) and judged next to a live, fully evaluated twin declared in the opposite order.",
     note="Reference = sympy on the definition alone. quick: all 1-edit neighbours of 6 seeds + a VERIF_SEED-selected 1/6 slice of the 2-edit neighbourhoods and 1/7 of the block (not exhaustive, flagged); thorough: complete 2-3 edit neighbourhoods and block."),
  "C03": dict(
     category="exploration", design_ref="DESIGN.md §5 C03",
@@ -53,7 +53,7 @@ CHECKS = {
  "C09": dict(
     category="model_checking", design_ref="DESIGN.md §5 C09",
     technique="enumeration of all sequences of parameter assignments over the input-form alphabet on one live object, against a dict reference",
-    text="All sequences of <=2 (quick; +length 3 over 12 representative forms) / 3 (thorough) assignments over 41 forms (list, tuple, array, column array, pairs in all orders, dict by str / model symbol / plain Symbol for all subsets, six rejected forms) on a model whose evaluators reveal each parameter separately (ode, grad and a parameter-only state-change matrix, parameters declared in non-alphabetical order).",
+    text="All sequences of <=2 (quick; +length 3 over 12 representative forms) / 3 (thorough) assignments over 41 forms (list, tuple, array, column array, pairs in all orders, dict by str / model symbol / plain Symbol for all subsets, six rejected forms) on a model whose evaluators reveal each parameter separately (ode, grad and a parameter-only state-change matrix, parameters declared in non-alphabetical order); plus a grown-list leg: full assignment -> [evaluate] -> parameter list extended -> second assignment in nine forms -> evaluate.",
     note="Partial update on a model that never had values leaves unmentioned parameters unspecified (not judged)."),
  "C12": dict(
     category="model_checking", design_ref="DESIGN.md §5 C12",
@@ -63,27 +63,27 @@ CHECKS = {
  "C02": dict(
     category="exploration", design_ref="DESIGN.md §5 C02",
     technique="exhaustive enumeration of a finite configuration product (model x grid x entry point x integrator x flags), every combination executed and compared with a closed form or a reference integration of the sympy right-hand side",
-    text="Catalogue and generated models x t0 in {0, 0.5} x six grid shapes (uniform, non-uniform, scalar, one element, integer array, integer list) x {integrate, solve_determ, integrate2, integrateFuncJac} x methods {None, lsoda, vode, ivode, dopri5, dop853} x full_output x includeOrigin: row count and order, first row exactly x0, each row the solution at its time. Decides alignment, ordering, aliasing and shaping, which is where the defects found on the pinned tree lived.",
+    text="Catalogue and generated models x t0 in {0, 0.5} x six grid shapes (uniform, non-uniform, scalar, one element, integer array, integer list) x {integrate, solve_determ, integrate2, integrateFuncJac} x methods {None, lsoda, vode, ivode, dopri5, dop853} x full_output x includeOrigin: row count and order, first row exactly x0, each row the solution at its time. A history leg solves a model again after it was changed while another live model was solved in between. Decides alignment, ordering, aliasing, shaping and staleness, which is where the defects found on the pinned tree lived.",
     note="Trusted: scipy DOP853 at rtol 1e-12 on the sympy right-hand side, closed forms for the linear chain and the logistic model. Tolerance 1e-6(1+|x|); a case counts as non-trivial only if consecutive rows differ by 1e-3."),
  "C06": dict(
     category="exploration", design_ref="DESIGN.md §5 C06",
     technique="exhaustive enumeration of loss configurations (loss class x observed-state selection in every order x spread x weights x target parameters x entry point x grid type) against independent loss formulas on a reference trajectory",
-    text="cost(theta), cost(), residual and costIV of all five loss classes equal the independently written loss of the reference trajectory at the observation times, for every ordered selection of observed states, scalar / per-state / per-observation spread and weights, every ordered target_param subset and integer-typed observation times with fractional t0; square loss at the generating parameters is 0.",
+    text="cost(theta), cost(), residual and costIV of all five loss classes equal the independently written loss of the reference trajectory at the observation times, for every ordered selection of observed states, scalar / per-state / per-observation spread and weights, every ordered target_param subset and integer-typed observation times with fractional t0; square loss at the generating parameters is 0. A sequence leg evaluates one loss object ten times (same point, points a relative 9e-6 away, elsewhere and back, through cost/residual/costIV); a target_state leg runs costIV for every ordered target_state subset on objects constructed with float / integer-typed initial states.",
     note="Reference trajectory = closed form or DOP853(1e-12); loss formulas written with math.lgamma/log only. quick runs every second configuration (selected by VERIF_SEED), thorough all."),
  "C07": dict(
     category="exploration", design_ref="DESIGN.md §5 C07",
     technique="exhaustive enumeration of gradient configurations against the derivative of the reference cost (sympy variational system + chain rule through independent loss derivatives)",
-    text="sensitivity, gradient and sensitivityIV of all five loss classes equal the derivative of the reference cost for every ordered observed-state selection, every ordered target_param and target_state subset, weights (Square/Normal), spread forms, integrator methods and full_output, with components in the order the free variables were supplied.",
+    text="sensitivity, gradient and sensitivityIV of all five loss classes equal the derivative of the reference cost for every ordered observed-state selection, every ordered target_param and target_state subset, weights (Square/Normal), spread forms, integrator methods and full_output, with components in the order the free variables were supplied. A sequence leg evaluates the gradient eight times on one object at the optimum, a hair away from it, elsewhere and back.",
     note="The oracle is the derivative of the reference cost, not finite differences of the library's cost. quick: every third configuration."),
  "C13": dict(
     category="exploration", design_ref="DESIGN.md §5 C13",
     technique="enumeration of model shapes (d,p) in {1,2,3}x{0..3} x arrangement x evaluation points; symbolic Jacobian of the reference augmented system as oracle; integration of the augmented systems against the reference variational solution",
-    text="ode_and_sensitivity / ode_and_sensitivityIV and their Jacobians (by parameter and by state) equal the variational right-hand side [f, vec(J S + G)] / [.., vec(J S0)] and its exact symbolic Jacobian for every shape incl. one-state and p != d-1; integrating them gives dx/dtheta and dx/dx0.",
+    text="ode_and_sensitivity / ode_and_sensitivityIV and their Jacobians (by parameter and by state) equal the variational right-hand side [f, vec(J S + G)] / [.., vec(J S0)] and its exact symbolic Jacobian for every shape incl. one-state and p != d-1; integrating them gives dx/dtheta and dx/dx0 (scipy.ode methods, and scipy Radau driven with the by-state system and its Jacobian). One point is visited three times with different parameter values, and the vector handed to the right-hand side and the Jacobian must come back untouched.",
     note="Reference J, G and the augmented Jacobian come from sympy.diff on the definition; no finite differences in the oracle."),
  "C14": dict(
     category="exploration", design_ref="DESIGN.md §5 C14",
     technique="exhaustive grid enumeration of (y, yhat, spread, weights, shapes) for every loss kernel against closed-form negative log-likelihoods and their sympy derivatives",
-    text="loss, diff_loss and diff2Loss of Square, Normal, Poisson, Gamma and NegBinom equal minus the summed log-density (written independently) and its first and second derivative in the prediction, for scalar and per-observation spread, one-column and vector predictions, weights on and off.",
+    text="loss, diff_loss and diff2Loss of Square, Normal, Poisson, Gamma and NegBinom equal minus the summed log-density (written independently) and its first and second derivative in the prediction, for scalar and per-observation spread, one-column and vector predictions, weights on and off, float and integer-typed observation arrays, and a large regime (counts to 2000, dispersion to 5000).",
     note="Real arguments on an explicit grid only; derivatives from sympy.diff evaluated by mpmath."),
  "C17": dict(
     category="model_checking", design_ref="DESIGN.md §5 C17",
